@@ -407,6 +407,11 @@ def stage_repeat_check(r):
     why = []
     gds = [{"kind": "shipped", "name": "cyp2d6", "genome": "hg19"}, {"kind": "toy", "genome": "hg19"}]
     descs = [c03.gen_cn_instance(r, gd) for gd in gds for _ in range(2)]
+    from fractions import Fraction
+    for d_ in descs:
+        # the row weighted by variable name (CYP2D7's `pce` region) gets a residual that no structure explains
+        if "pce" in d_["depth"]:
+            d_["depth"]["pce"] = [d_["depth"]["pce"][0], str(Fraction(d_["depth"]["pce"][1]) + Fraction(7, 5))]
 
     def solve(desc):
         gene, gid, prof, configs, region_cov, fs = c03.build_inst(desc)
@@ -414,6 +419,26 @@ def stage_repeat_check(r):
         return sorted((sorted(s.solution.items()), round(s.score, 9)) for s in res)
 
     first = [solve(d_) for d_ in descs]
+    # ... and the same as in an interpreter that has built no other model before
+    import pickle
+    import subprocess
+    code = ("import sys, pickle, json; sys.path.insert(0, sys.argv[1]); sys.path.insert(0, sys.argv[2]); import c03; from aldy import cn\n"
+            "desc = pickle.load(sys.stdin.buffer)\n"
+            "gene, gid, prof, configs, region_cov, fs = c03.build_inst(desc)\n"
+            "res = cn.solve_cn_model(gene, prof, configs, desc['max_cn'], region_cov, 'cbc', None, fs)\n"
+            "print('RESULT ' + json.dumps(sorted((sorted(s.solution.items()), round(s.score, 9)) for s in res)))\n")
+    for i_, d_ in enumerate(descs[:2]):
+        p_ = subprocess.run([sys.executable, "-c", code, lib.REPO, os.path.dirname(os.path.abspath(__file__))], input=pickle.dumps(d_), stdout=subprocess.PIPE, stderr=subprocess.PIPE,
+                            env=dict(os.environ, PYTHONWARNINGS="ignore"), timeout=600)
+        line = [l for l in p_.stdout.decode().splitlines() if l.startswith("RESULT ")]
+        if not line:
+            raise lib.ToolTrouble("fresh-interpreter copy-number run failed: " + p_.stderr.decode()[-300:])
+        fresh = json.loads(line[0][7:])
+        mine = json.loads(json.dumps(first[i_]))
+        if fresh != mine:
+            why.append(f"the copy-number model of {d_['gene'].get('name', 'toy')} solved in this process (after other models were built) gives {str(mine)[:160]}, "
+                       f"a fresh interpreter gives {str(fresh)[:160]}")
+            return why
     order = list(range(len(descs))) * 2
     r.shuffle(order)
     for i in order:
